@@ -22,7 +22,7 @@ template struct rob<t_serial, &sender_t::_last_serial_num>;
 
 struct X {
   W w; bool has_rm = false; uint16_t rm = 0;
-  int npub = 0; uint8_t qos_of[VK_PUBS]; int nreconn = 0;
+  int npub = 0; uint8_t qos_of[VK_PUBS]; int op_of[VK_PUBS]; bool rec_received[VK_PUBS] = {}; int nreconn = 0;
   uint16_t acked[8]; int acked_upto[8]; int nacked = 0;
   bool is_acked(uint16_t pid, int idx) const { for (int i = 0; i < nacked; i++) if (acked[i] == pid && idx < acked_upto[i]) return true; return false; }
   void connack() {
@@ -39,6 +39,14 @@ struct X {
       int t = tag_of(r);
       if (r.qos > 0) { vk_assert(t > last_q, "QoS>0 PUBLISH packets left out of initiation order on this connection"); last_q = t; }
       if (!has_rm) { vk_assert(t > last_all, "PUBLISH packets left out of initiation order although no Receive Maximum applies"); last_all = t; }
+      // no overtaking: every earlier-initiated publish that is still to be sent (not completed, not already past its PUBREC) and that
+      // takes part in the ordering (QoS>0, or any QoS when no Receive Maximum applies) is on this connection's wire before this packet
+      if (r.qos > 0 || !has_rm)
+        for (int u = 0; u < t; u++) {
+          if (w.ops[op_of[u]].done || rec_received[u] || (has_rm && qos_of[u] == 0)) continue;
+          bool before = false; for (int j = 0; j < i; j++) if (w.pk[j].epoch == w.epoch && w.pk[j].type == ref::PUBLISH && tag_of(w.pk[j]) == u) before = true;
+          vk_assert(before, "a PUBLISH overtook an earlier-initiated one that is still waiting to be sent");
+        }
     }
     if (last_q >= 1 || last_all >= 1) vk_reach("two-ordered");
     (void)from;
@@ -56,7 +64,7 @@ extern "C" void h_order(void) {
     switch (ev) {
       case 0: { if (x->npub >= VK_PUBS) vk_assume(0); uint8_t q = (uint8_t)vk_choose(3); x->qos_of[x->npub] = q;
                 std::string payload(1, (char)('A' + x->npub)); x->npub++;
-                if (q == 0) w.publish<qos_e::at_most_once>("t", payload); else if (q == 1) w.publish<qos_e::at_least_once>("t", payload); else w.publish<qos_e::exactly_once>("t", payload);
+                x->op_of[x->npub - 1] = q == 0 ? w.publish<qos_e::at_most_once>("t", payload) : q == 1 ? w.publish<qos_e::at_least_once>("t", payload) : w.publish<qos_e::exactly_once>("t", payload);
                 vk::drain(); break; }
       case 1: { auto* s = vk::pending_write(); if (!s) vk_assume(0); int b = w.npk; w.finish_write(s, s->wdata.size(), {}); vk::drain(); x->check_order(b); break; }
       case 2: { // the broker acknowledges (PUBACK / PUBREC, success) the oldest unacknowledged QoS>0 PUBLISH it has
@@ -64,9 +72,13 @@ extern "C" void h_order(void) {
                 for (int i = 0; i < w.npk && j < 0; i++) if (w.pk[i].epoch == w.epoch && w.pk[i].type == ref::PUBLISH && w.pk[i].qos > 0 && !x->is_acked(w.pk[i].pid, i)) j = i;
                 if (j < 0) vk_assume(0);
                 x->acked[x->nacked] = w.pk[j].pid; x->acked_upto[x->nacked++] = w.npk;
+                if (w.pk[j].qos == 2) x->rec_received[x->tag_of(w.pk[j])] = true;
                 w.ack(w.pk[j].qos == 1 ? ref::PUBACK : ref::PUBREC, w.pk[j].pid, 0, 1); w.feed_all(); vk::drain(); vk_reach("acked"); break; }
       default: { if (w.connected()) { if (x->nreconn >= 1) vk_assume(0); x->nreconn++; w.drop_connection(); vk::drain(); } else if (!w.attempt_in_progress()) vk_assume(0);
-                bool ok2 = w.establish(); vk_assert(ok2, "the client reconnects"); x->connack(); x->check_order(0); vk_reach("reconnected"); break; }
+                bool ok2 = w.establish(); vk_assert(ok2, "the client reconnects");
+                // every connection announces its own Receive Maximum, or none
+                { bool before = x->has_rm; x->has_rm = vk_choose(2); if (x->has_rm) { x->rm = vk_sym_u16(); vk_assume(x->rm >= 1 && x->rm <= 3); } if (before != x->has_rm) vk_reach("receive-maximum-comes-or-goes"); }
+                x->connack(); x->check_order(0); vk_reach("reconnected"); break; }
     }
     vk_event(10 + ev, w.npk);
   }
